@@ -76,5 +76,5 @@ Print Assumptions c01_sweep_exact.
 Example c01_example :
   run_ops false (init 60 30 3600 1)
     [Put 7 [1; 2] 10; Put 7 [9] 3; Advance 2999999999; Get 7; Advance 1; Get 7; List; Snapshot; Sweep; Snapshot]
-  = [1; 1; 9] ++ [0] ++ [0] ++ [0] ++ [0] ++ [0].
+  = [1; 1; 9] ++ [0] ++ [0] ++ [1; 7; 0] ++ [1; 7] ++ [0].   (* refused at the deadline, not listed, still held until the sweep takes and reports it *)
 Proof. vm_compute. reflexivity. Qed.
